@@ -287,13 +287,29 @@ pub fn snap_list<K: SimKey, E: caches::OnEvictCallback, S: std::hash::BuildHashe
         });
     };
     let mut is_live = |a: usize, sz: usize| crate::alloc::is_live(a, sz);
-    if relaxed && world::index_probe() {
+    if relaxed && (world::index_probe() || world::contain()) {
         // The panic was injected while the index was rehashing its entries (no list operation is in
         // flight then). Look every linked node up instead of traversing the table: an index that
         // claims more entries than can be found has lost its own count, and traversing it (as the
         // audit below, `Drop` and every later growth of the table do) reads beyond the table.
         let bound = caches::Cache::len(l).saturating_add(4);
         let (claimed, found) = world::suspended(|| l.verif_index_probe(bound, &mut is_live));
+        if claimed > found && !world::index_probe() {
+            // Not an injection point of the rehash class (e.g. the second fault of a double-fault
+            // plan, whose call number no base execution classifies): an index entry without a linked
+            // node is a legitimate post-fault state (an orphan), but the table might just as well
+            // have lost its count. Nothing is reported; the table is not traversed and the object
+            // is set aside (leaked), so that the simulator never executes undefined behaviour.
+            return ListSnap {
+                cap: caches::Cache::cap(l),
+                map_len: claimed,
+                ents: Vec::new(),
+                problems: Vec::new(),
+                head: 0,
+                tail: 0,
+                corrupt: true,
+            };
+        }
         if claimed > found {
             return ListSnap {
                 cap: caches::Cache::cap(l),
